@@ -1,8 +1,105 @@
 //! A crate named `loom` that hands parity-db's `feature = "loom"` shim shuttle's primitives:
 //! every Mutex / RwLock / Condvar operation of parity-db becomes a shuttle scheduling point.
+//!
+//! `Mutex` and `RwLock` are thin wrappers whose acquire operations are also *stall points*: the
+//! scenario may plan, per execution, that one thread (by role) is descheduled for a long time at
+//! its n-th acquire (fault kind "stalled thread"; see `stall`).
 pub mod sync {
 	pub use shuttle::sync::*;
+
+	#[derive(Debug, Default)]
+	pub struct Mutex<T>(shuttle::sync::Mutex<T>);
+
+	impl<T> Mutex<T> {
+		pub fn new(val: T) -> Self {
+			Self(shuttle::sync::Mutex::new(val))
+		}
+		pub fn lock(&self) -> LockResult<MutexGuard<'_, T>> {
+			crate::stall::point();
+			self.0.lock()
+		}
+		pub fn try_lock(&self) -> TryLockResult<MutexGuard<'_, T>> {
+			self.0.try_lock()
+		}
+	}
+
+	#[derive(Debug, Default)]
+	pub struct RwLock<T>(shuttle::sync::RwLock<T>);
+
+	impl<T> RwLock<T> {
+		pub fn new(val: T) -> Self {
+			Self(shuttle::sync::RwLock::new(val))
+		}
+		pub fn read(&self) -> LockResult<RwLockReadGuard<'_, T>> {
+			crate::stall::point();
+			self.0.read()
+		}
+		pub fn write(&self) -> LockResult<RwLockWriteGuard<'_, T>> {
+			crate::stall::point();
+			self.0.write()
+		}
+		pub fn try_write(&self) -> TryLockResult<RwLockWriteGuard<'_, T>> {
+			self.0.try_write()
+		}
+		pub fn try_read(&self) -> TryLockResult<RwLockReadGuard<'_, T>> {
+			self.0.try_read()
+		}
+	}
 }
 pub mod thread {
 	pub use shuttle::thread::*;
+}
+
+/// Stalled-thread fault: at its `at`-th lock acquire the thread with role `role` yields `len`
+/// times in a row (under PCT a yield also drops it to the lowest priority), so that every other
+/// thread can run far ahead while it sits in the middle of whatever it was doing.
+pub mod stall {
+	use std::cell::Cell;
+	use std::sync::atomic::{AtomicU32, AtomicU64, Ordering};
+
+	static ROLE: AtomicU32 = AtomicU32::new(u32::MAX);
+	static AT: AtomicU32 = AtomicU32::new(0);
+	static LEN: AtomicU32 = AtomicU32::new(0);
+	pub static FIRED: AtomicU64 = AtomicU64::new(0);
+
+	shuttle::thread_local! {
+		static MY_ROLE: Cell<u32> = Cell::new(u32::MAX);
+		static COUNT: Cell<u32> = Cell::new(0);
+	}
+
+	pub fn set_role(r: u32) {
+		MY_ROLE.with(|c| c.set(r));
+	}
+
+	pub fn plan(role: u32, at: u32, len: u32) {
+		AT.store(at, Ordering::Relaxed);
+		LEN.store(len, Ordering::Relaxed);
+		ROLE.store(role, Ordering::Relaxed);
+	}
+
+	pub fn clear() {
+		ROLE.store(u32::MAX, Ordering::Relaxed);
+	}
+
+	#[inline]
+	pub fn point() {
+		let role = ROLE.load(Ordering::Relaxed);
+		if role == u32::MAX || std::thread::panicking() {
+			return
+		}
+		let mine = MY_ROLE.with(|c| c.get());
+		if mine != role {
+			return
+		}
+		let n = COUNT.with(|c| {
+			c.set(c.get() + 1);
+			c.get()
+		});
+		if n == AT.load(Ordering::Relaxed) {
+			FIRED.fetch_add(1, Ordering::Relaxed);
+			for _ in 0..LEN.load(Ordering::Relaxed) {
+				shuttle::thread::yield_now();
+			}
+		}
+	}
 }
